@@ -2,6 +2,7 @@
 //! One case per input line, one canonical result line per case on stdout.
 mod builder_cases;
 mod conc_cases;
+mod example_cases;
 mod fmt_cases;
 mod green_cases;
 mod intern_cases;
@@ -51,6 +52,7 @@ fn run_line(line: &str) -> String {
         "Y" => green_cases::run_y(&args),
         "I" => intern_cases::run_case(&args),
         "K" => conc_cases::run_k(&args),
+        "E" => example_cases::run_e(&args),
         "Q" => token_cases::run_q(&args),
         "X" => text_cases::run_x(&args),
         "Z" => serde_cases::run_z(&args),
